@@ -91,6 +91,27 @@ class Prop(PropBase):
                 else:
                     off = rng.choice([0.0, 1.0, -1.0, span * 30.0, -span * 30.0, span * 30.0])      # also exactly on the span's edges
                 queries.append([k, off])
+            # instants where the predicted phase is just short of (or past) a half-integer: there the count/fraction split of a large
+            # reference phase spills into the next count, and the rounding error of RPHASE + poly must survive the renormalisation
+            for _ in range(3):
+                k = rng.randrange(len(entries))
+                e = entries[k]
+                cs = [F(c.lower().replace("d", "e")) for c in e["coeffs"]]
+
+                def total(off_s):
+                    DT = F(off_s) / 60
+                    return F(e["rphase"]) + 60 * DT * F(f0) + sum(c * DT**i for i, c in enumerate(cs))
+                off = rng.uniform(-span * 20.0, span * 20.0)
+                target = F(1, 2) + F(rng.choice([-3, -1, 2, -6, 5]), 10**5)
+                finst = F(f0) + (cs[1] / 60 if len(cs) > 1 else 0)
+                for _it in range(3):
+                    ph = total(off)
+                    miss = (target - (ph - (ph.numerator // ph.denominator))) % 1
+                    if miss > F(1, 2):
+                        miss -= 1
+                    off = float(F(off) + miss / finst) if finst != 0 else off
+                if abs(off) < span * 30 - 1e-3:
+                    queries.append([k, off])
             pp = [[rng.randrange(len(entries)), rng.uniform(-span * 30 + 1, span * 30 - 1)] for _ in range(40)]
             # reference times just inside a power of two seconds from TMID: there 1 - dt and -1 - dt fall into different
             # binades, which is where re-centring by shifting the polynomial's domain loses the scale (F17)
